@@ -256,8 +256,9 @@ class ModelBackend(Backend):
     def current_now(self):
         return self.world.now
 
-    def set_zone(self, std_off, dst_off, dst_now, dst_file, t_file):
-        """zone with standard / daylight offset; isdst(t) = dst_file for the file instant, dst_now for every other instant"""
+    def set_zone(self, std_off, dst_off, dst_now, dst_file, t_file, file_repeated=False):
+        """zone with standard / daylight offset; isdst(t) = dst_file for the file instant, dst_now for every other instant;
+        file_repeated: the file instant lies in the second occurrence of the hour repeated at the end of daylight saving"""
         import z3
         from .pse import SymBool, SymInt, _z, _zb
         W = self.W
@@ -267,7 +268,14 @@ class ModelBackend(Backend):
                 return dst_file if t == t_file else dst_now
             return SymBool(z3.If(_z(t) == _z(t_file), _zb(dst_file), _zb(dst_now)))
 
-        self.world.zone = W.Zone(std_off, dst_off, isdst)
+        def second(t):
+            if file_repeated is False:
+                return False
+            if isinstance(file_repeated, bool) and not isinstance(t, SymInt) and not isinstance(t_file, SymInt):
+                return file_repeated and t == t_file
+            return SymBool(z3.And(_z(t) == _z(t_file), _zb(file_repeated)))
+
+        self.world.zone = W.Zone(std_off, dst_off, isdst, second)
 
     def now_window(self):
         t = getattr(self, "last_run_now", self.world.now)
@@ -791,7 +799,7 @@ class RealBackend(Backend):
         """(earliest, latest) instant 'now' may denote for the last command (real clock: the command's run time)"""
         return self.last_window if self.clock != "freeze" else (self.now - self.tick, self.now - self.tick)
 
-    def set_zone(self, std_off, dst_off, dst_now, dst_file, t_file):
+    def set_zone(self, std_off, dst_off, dst_now, dst_file, t_file, file_repeated=False):
         """real clock + a POSIX TZ rule under which now / the file instant have the requested DST flags"""
         import time, datetime as dt
         self.clock = "real"
@@ -814,12 +822,19 @@ class RealBackend(Backend):
         # a DST period that (a) gives the two instants the requested flags, (b) keeps >= 3 days distance from both and
         # (c) like every real zone contains exactly one of 1 January / 1 July (CPython derives time.altzone from those two days)
         start = end = None
+        end_time = "0"
+        ends = range(1, 366, 3)
+        if file_repeated:
+            # daylight saving ends half an hour before the file instant: the file time is in the second occurrence of the repeated hour
+            sw = dt.datetime.fromtimestamp(t_file - 1800 + dst_off, dt.timezone.utc)
+            ends = [max(1, min(365, sw.timetuple().tm_yday))]
+            end_time = "%d:%02d:%02d" % (sw.hour, sw.minute, sw.second)
         for a in range(1, 366, 3):
-            for e in range(1, 366, 3):
+            for e in ends:
                 if a == e:
                     continue
                 ok = inside(dn, a, e) == bool(dst_now) and inside(df, a, e) == bool(dst_file) and inside(1, a, e) != inside(182, a, e)
-                ok = ok and all(min(abs(d - x), 365 - abs(d - x)) >= 3 for d in (dn, df) for x in (a, e))
+                ok = ok and all(min(abs(d - x), 365 - abs(d - x)) >= 3 for d in (dn, df) for x in (a, e) if not (file_repeated and d == df and x == e))
                 if ok:
                     start, end = a, e
                     break
@@ -827,7 +842,7 @@ class RealBackend(Backend):
                 break
         if start is None:
             raise ReplayInfeasible()
-        self.tz = "VST%sVDT%s,J%d/0,J%d/0" % (hhmm(std_off), hhmm(dst_off), start, end)
+        self.tz = "VST%sVDT%s,J%d/0,J%d/%s" % (hhmm(std_off), hhmm(dst_off), start, end, end_time)
 
     # ---- queries
     def exists(self, rel):
